@@ -31,6 +31,25 @@ func init() {
 	extraKinds["returncrdeposit2"] = candReturnCRDeposit2
 	extraKinds["topupcr"] = candTopupCR
 	extraKinds["updatev2"] = candUpdateV2
+	extraKinds["cancelexpired"] = candCancelExpired
+}
+
+// candCancelExpired cancels a 1.0&2.0 producer whose stake has run out (the
+// only moment its CancelProducer transaction is admitted).
+func candCancelExpired(g *Gen, t *rapid.T, spent map[string]bool) *cand {
+	k := g.K
+	h := k.Height + 1
+	if h < k.Params.DPoSV2StartHeight {
+		return nil
+	}
+	i := g.pick(t, "canexp", func(i int, p *dstate.Producer) bool {
+		return p != nil && p.Identity() == dstate.DPoSV1V2 && p.Info().StakeUntil < h &&
+			(p.State() == dstate.Active || p.State() == dstate.Inactive || p.State() == dstate.Pending)
+	})
+	if i < 0 {
+		return nil
+	}
+	return &cand{"cancelexpired", k.CancelProducerTx(g.owner(i)), fmt.Sprintf("p%d", i), fmt.Sprintf("cancelexpired(p%d,until=%d)", i, g.producer(i).Info().StakeUntil)}
 }
 
 // candUpdateV2 gives a DPoS 1.0 producer a (long or short) stake: it becomes
@@ -115,7 +134,7 @@ func driving(g *Gen) bool {
 func C28Kinds() map[string]int {
 	return map[string]int{
 		"registerv2": 6, "stake": 5, "voting": 9, "renewvoting": 3, "returnvotes": 4,
-		"returndeposit2": 5, "returncrdeposit2": 3, "topupcr": 1, "updatev2": 3,
+		"returndeposit2": 5, "returncrdeposit2": 3, "topupcr": 1, "updatev2": 3, "cancelexpired": 6,
 	}
 }
 
